@@ -477,6 +477,7 @@ class Check(object):
             'rules': self.rules,
             'instances_per_rule': per_rule,
             'modules_consulted': self.repo.consulted(),
+            'functions_analysed': sorted(set('%s::%s' % (i[1], i[2]) for i in inst)),
             'decides': self.decides,
             'does_not_decide': self.does_not_decide,
             'known_findings_matched': nknown,
